@@ -3,6 +3,7 @@
 One task = (shape, flags, criteria sequence, obligation forms).  Every form is
 decided by z3 over *all* quota / target values (symbolic) and all MILP points.
 """
+import re
 import time
 import traceback
 
@@ -72,11 +73,11 @@ def analyse(task):
     res = {'obligations': 0, 'discharged': 0, 'unknown': 0, 'cex': [], 'queries': 0,
            'solver_time': 0.0, 'paths': 0, 'nontrivial': 0, 'controls': {}}
     E = S.Engine(max_paths=64, timeout=120)
-    paths = E.explore(lambda: e2.run_e2(I, flags, seq))
+    paths = E.explore(lambda: e2.run_e2(I, flags, seq, argv_seq=task.get('argv_seq')))
     res['paths'] = len(paths)
     res['queries'] += E.stats['solver_queries']
     res['solver_time'] += E.stats['solver_time']
-    base = {'shape': task['shape'], 'flags': sorted(flags), 'seq': seq}
+    base = {'shape': task['shape'], 'flags': sorted(flags), 'seq': seq, 'argv_seq': task.get('argv_seq')}
 
     def ask(fs, what):
         t0 = time.time()
@@ -84,6 +85,33 @@ def analyse(task):
         res['queries'] += 1
         res['solver_time'] += time.time() - t0
         return r, m
+
+    def ask_split(fs, xo_, what):
+        """decide fs; when z3 does not answer quickly, case-split on the existential
+        matching xo_ (every 'at most one project per student' assignment: exact, since
+        spec-feasibility is among fs)"""
+        t0 = time.time()
+        r, m = lp.decide(fs, 2500)
+        res['queries'] += 1
+        res['solver_time'] += time.time() - t0
+        if r != 'unknown':
+            return r, m
+        import itertools
+        per = []
+        for s_ in range(1, I.ns + 1):
+            per.append([None] + [k for k in xo_ if k[0] == s_])
+        conj = z3.And(fs)
+        for choice in itertools.product(*per):
+            sub = [(v, z3.IntVal(1 if k in choice else 0)) for k, v in xo_.items()]
+            f = z3.simplify(z3.substitute(conj, *sub))
+            if z3.is_false(f):
+                continue
+            r, m = ask([f], what + '-case')
+            if r != 'unsat':
+                if r == 'sat':
+                    return ask(fs, what)   # model over the original variables
+                return r, m
+        return 'unsat', None
 
     def oblige(fs, tag, what, mk_data):
         """fs must be unsat."""
@@ -111,12 +139,16 @@ def analyse(task):
                 if r == 'sat':
                     data.update(_model_data(J, m))
                 res['cex'].append({
-                    'tag': 'noexc/%s/%s/%s' % (type(p.exc).__name__, site, seq_name(seq)),
+                    'tag': 'noexc/%s/%s' % (type(p.exc).__name__, site),
                     'what': 'exception escapes Solver()/solve(): %s: %s' % (type(p.exc).__name__, p.exc),
                     'form': 'noexc', 'data': data})
             continue
         run = p.result
         J = run.inst
+        if 'twopl' not in flags and J.lprefs is not None:
+            # without the two-sided flag second-side lists in the file are ignored
+            J = spec.Inst(J.na, J.ns, J.np, J.nl, J.prefs, J.plec, None,
+                          J.plq, J.puq, J.llq, J.lt, J.luq)
         pc = list(p.pc)
         wf = wf_constraints(J) if task.get('wf') else []
         snaps = run.snaps
@@ -130,9 +162,80 @@ def analyse(task):
         x = e2.x_of(run, last.point)
         chain = None
 
-        def get_chain(upto=None):
+        student_vars = [[pair.lp_var for pair in row] for row in run.solver.model.pairs]
+        expand_ok = {}
+
+        def can_expand(i):
+            """P_i implies 'each student at most one 0/1 variable' (then expanding the
+            universally quantified matching over such assignments is exact)"""
+            if i not in expand_ok:
+                s_ = snaps[i]
+                shape_c = []
+                for vs in student_vars:
+                    ts = [s_.point.v[id(v)] for v in vs if id(v) in s_.point.v]
+                    shape_c += [z3.Or(t == 0, t == 1) for t in ts]
+                    if ts:
+                        shape_c.append(z3.Sum(ts) <= 1)
+                r_, _ = ask(pc + [lp.P(s_, s_.point), z3.Not(z3.And(shape_c))], 'expand-side')
+                expand_ok[i] = (r_ == 'unsat')
+            return expand_ok[i]
+
+        def get_chain(upto=None, mode='plain'):
             ss = snaps if upto is None else snaps[:upto]
-            return [lp.optimal(s_, s_.point, 'u%d' % i) for i, s_ in enumerate(ss)]
+            out = []
+            for i, s_ in enumerate(ss):
+                if mode == 'expanded' and can_expand(i):
+                    out.append(lp.optimal_expanded(s_, s_.point, 'v%d' % i, student_vars))
+                else:
+                    out.append(lp.optimal(s_, s_.point, 'u%d' % i))
+            return out
+
+        qe_cache = {}
+
+        def chain_qe(upto, budget_ms=30000):
+            """expanded chain with the remaining (auxiliary) universals eliminated by
+            z3's qe tactic: the query becomes quantifier-free"""
+            key = len(snaps) if upto is None else upto
+            if qe_cache.get(key, 0) is None and qe_cache.get(('b', key), 0) < budget_ms:
+                del qe_cache[key]
+            if key not in qe_cache:
+                qe_cache[('b', key)] = budget_ms
+                ss = snaps[:key]
+                if not all(can_expand(i) for i in range(len(ss))):
+                    qe_cache[key] = None
+                else:
+                    g = z3.Goal()
+                    for f in get_chain(upto, 'expanded'):
+                        g.add(f)
+                    t0 = time.time()
+                    try:
+                        r_ = z3.TryFor(z3.Tactic('qe'), budget_ms)(g)
+                        qe_cache[key] = [sg.as_expr() for sg in r_]
+                    except z3.Z3Exception:
+                        qe_cache[key] = None
+                    res['solver_time'] += time.time() - t0
+                    res['queries'] += 1
+            return qe_cache[key]
+
+        def ask_chain(mk, what, upto=None):
+            """portfolio over encodings of 'optimal': short plain attempt, expanded with
+            quantifier elimination, expanded, then plain with the full budget"""
+            lb = any(v.name.startswith('abs_lec_diff') for v in last.variables)
+            order = ((('qe', 6000),) if lb else ()) + (('plain', 2000), ('qe', QTIMEOUT), ('expanded', QTIMEOUT), ('plain', QTIMEOUT))
+            for mode, tmo in order:
+                if mode == 'qe':
+                    ch = chain_qe(upto, min(tmo, 30000))
+                    if ch is None:
+                        continue
+                else:
+                    ch = get_chain(upto, mode)
+                t0 = time.time()
+                r, m = lp.decide(mk(ch), tmo)
+                res['queries'] += 1
+                res['solver_time'] += time.time() - t0
+                if r != 'unknown':
+                    return r, m
+            return 'unknown', None
 
         # ---- soundness: every point of the final problem is a valid (stable) matching
         if 'valid' in forms:
@@ -147,7 +250,7 @@ def analyse(task):
                     res['unknown'] += 1
                 else:
                     # some point is bad; is an *optimal* one bad?
-                    r2, m2 = ask(pc + wf + get_chain() + [z3.Not(prop_f)], name + '-optimal')
+                    r2, m2 = ask_chain(lambda ch: pc + wf + ch + [z3.Not(prop_f)], name + '-optimal')
                     if r2 == 'unsat':
                         res['discharged'] += 1
                     elif r2 == 'unknown':
@@ -187,33 +290,132 @@ def analyse(task):
                    'a feasible matching is excluded by the integer program',
                    lambda m: _model_data(J, m, xo=xo))
 
-        # ---- feasibility: spec-feasible => every solve of the run has a solution
+        # ---- feasibility: spec-feasible => every solve of the run has a solution.
+        # Decided inductively: (base) every spec-feasible matching extends to a point of
+        # the first problem; (step k) every point of problem k-1 - whose objective value
+        # is what the freeze constraint of solve k-1 refers to - extends to a point of
+        # problem k.  Both are sufficient conditions with few universally quantified
+        # variables; if one fails, the exact chain formula (values frozen by earlier
+        # solves are *optimal*) decides before anything is reported.
         if 'feas' in forms:
             xo, dom = spec.zvars(J, 'xo')
             feas = spec.feasible(J, xo, pc_flag, stab, Z)
             for k, sk in enumerate(snaps):
-                fs = pc + wf + dom + [feas] + get_chain(k) + [lp.infeasible(sk, 'n%d' % k)]
                 objname = ','.join(v.name for v in (sk.objective.terms if sk.objective is not None else {})) or 'none'
-                oblige(fs, 'feas/%s/%s' % (seq_name(seq), objname),
-                       'feasible instance but solve #%d (%s) has no solution' % (k + 1, objname),
-                       lambda m: _model_data(J, m, xo=xo))
+                crit_k = task.get('solve_crit', {}).get(k) or seq_name(seq)
+                tag = 'feas/%s' % re.sub(r'_rank_\d+', '_rank_r', objname)
+                what = 'feasible instance but solve #%d (objective %s) has no solution' % (k + 1, objname)
+                res['obligations'] += 1
+                if k == 0:
+                    fixed = {}
+                    for row in run.solver.model.pairs:
+                        for pair in row:
+                            if id(pair.lp_var) in sk.point.v:
+                                fixed[id(pair.lp_var)] = xo[(pair.studentID, pair.projectID)]
+                    pt = lp.Point(sk, 'c', consts=fixed)
+                    aux = [c for vid, c in pt.v.items() if vid not in fixed]
+                    body = z3.Not(lp.P(sk, pt))
+                    q = z3.ForAll(aux, body) if aux else body
+                    absent = [kk for kk in xo if not any(
+                        (pair.studentID, pair.projectID) == kk and id(pair.lp_var) in sk.point.v
+                        for row in run.solver.model.pairs for pair in row)]
+                    cheap = pc + wf + dom + [feas, q] + [xo[kk] == 0 for kk in absent]
+                else:
+                    prev = snaps[k - 1]
+                    shared = {vid: c for vid, c in prev.point.v.items()}
+                    pt = lp.Point(sk, 'e%d' % k, consts=shared)
+                    new = [c for vid, c in pt.v.items() if vid not in shared]
+                    body = z3.Not(lp.P(sk, pt))
+                    q = z3.ForAll(new, body) if new else body
+                    cheap = pc + wf + [lp.P(prev, prev.point), q]
+                r, m = ask(cheap, 'feas-step')
+                if r == 'unsat':
+                    res['discharged'] += 1
+                    continue
+                r, m = ask_chain(lambda ch: pc + wf + dom + [feas] + ch + [lp.infeasible(sk, 'n%d' % k)],
+                                 'feas-exact', upto=k)
+                if r == 'unsat':
+                    res['discharged'] += 1
+                elif r == 'unknown':
+                    res['unknown'] += 1
+                else:
+                    d = dict(base)
+                    d.update(_model_data(J, m, xo=xo))
+                    res['cex'].append({'tag': tag, 'what': what, 'form': 'feas', 'data': d})
 
         # ---- optimality (lexicographic over the documented measures)
         if 'opt' in forms and seq:
             xo, dom = spec.zvars(J, 'xo')
             feas = spec.feasible(J, xo, pc_flag, stab, Z)
-            ch = get_chain()
             better = spec.lex_gt(spec.seq_key(J, xo, seq, Z), spec.seq_key(J, x, seq, Z), Z)
-            oblige(pc + wf + dom + ch + [feas, better],
-                   'opt/%s/%s' % ('+'.join(sorted(flags)) or '-', seq_name(seq)),
-                   'reported optimum beaten by a feasible matching for the documented measure',
-                   lambda m: _model_data(J, m, x=x, xo=xo))
-            r, _ = ask(pc + wf + ch, 'twin')
+            res['obligations'] += 1
+
+            def inductive():
+                """Sufficient local conditions (one solve at a time, only auxiliary
+                variables universally quantified) for lexicographic optimality:
+                with kappa_k the k-th component of the documented key and V_j the
+                value frozen after solve j,
+                  S_k: every point p of problem k is spec-feasible, keeps kappa_j >= V_j
+                       for the earlier solves, and its objective is <= kappa_k(x(p));
+                  C_k: every spec-feasible x with kappa_j(x) >= V_j (j<k) has a
+                       completion in problem k whose objective is >= kappa_k(x).
+                Then max objective of problem k = max of kappa_k over the matchings
+                optimal for the earlier components, by induction on k."""
+                keys_pt = lambda xx: spec.seq_key(J, xx, seq, Z)
+                if len(keys_pt(x)) != len(snaps):
+                    return False
+                V = [lp.objective(s_, s_.point) for s_ in snaps]
+                pairs = [pair for row in run.solver.model.pairs for pair in row]
+                for k, sk in enumerate(snaps):
+                    pt = sk.point
+                    xk = e2.x_of(run, pt)
+                    kk = keys_pt(xk)
+                    goal = z3.And([spec.feasible(J, xk, pc_flag, stab, Z)] +
+                                  [kk[j] >= V[j] for j in range(k)] +
+                                  [lp.objective(sk, pt) <= kk[k]])
+                    r_, _ = ask(pc + wf + [lp.P(sk, pt), z3.Not(goal)], 'ind-S')
+                    if r_ != 'unsat':
+                        return False
+                    fixed = {id(pr.lp_var): xo[(pr.studentID, pr.projectID)]
+                             for pr in pairs if id(pr.lp_var) in pt.v}
+                    if len(fixed) != len(xo):
+                        return False
+                    cp = lp.Point(sk, 'i%d' % k, consts=fixed)
+                    aux = [c for vid, c in cp.v.items() if vid not in fixed]
+                    ko = keys_pt(xo)
+                    body = z3.Not(z3.And(lp.P(sk, cp), lp.objective(sk, cp) >= ko[k]))
+                    q = lp.forall(aux, body)
+                    r_, _ = ask_split(pc + wf + dom + [feas] + [ko[j] >= V[j] for j in range(k)] + [q], xo, 'ind-C')
+                    if r_ != 'unsat':
+                        return False
+                return True
+
+            if inductive():
+                r, m = 'unsat', None
+                res['controls']['opt_by_induction'] = res['controls'].get('opt_by_induction', 0) + 1
+            else:
+                res['controls']['opt_by_exact_chain'] = res['controls'].get('opt_by_exact_chain', 0) + 1
+                r, m = ask_chain(lambda ch: pc + wf + dom + ch + [feas, better], 'opt')
+            if r == 'unsat':
+                res['discharged'] += 1
+            elif r == 'unknown':
+                res['unknown'] += 1
+            else:
+                d = dict(base)
+                d.update(_model_data(J, m, x=x, xo=xo))
+                res['cex'].append({'tag': 'opt/%s/%s' % ('+'.join(sorted(flags)) or '-', seq_name(seq)),
+                                   'what': 'reported optimum beaten by a feasible matching for the documented measure',
+                                   'form': 'opt', 'data': d})
+            if res['controls'].get('opt_by_induction') and r == 'unsat' and m is None and not task.get('negctl'):
+                # vacuity twin of the inductive path: the last problem has a point
+                r, _ = ask(pc + wf + [lp.P(last, last.point)], 'twin')
+            else:
+                r, _ = ask_chain(lambda ch: pc + wf + ch, 'twin')
             res['controls']['must_reach_opt'] = res['controls'].get('must_reach_opt', 0) + (1 if r == 'sat' else 0)
             if task.get('negctl'):
                 # negative control: flipped oracle must be refuted
                 worse = spec.lex_gt(spec.seq_key(J, x, seq, Z), spec.seq_key(J, xo, seq, Z), Z)
-                r, _ = ask(pc + wf + dom + ch + [feas, worse], 'negctl')
+                r, _ = ask_chain(lambda ch: pc + wf + dom + ch + [feas, worse], 'negctl')
                 res['controls']['negctl_sat'] = res['controls'].get('negctl_sat', 0) + (1 if r == 'sat' else 0)
 
     res['sample'] = {'shape': task['shape'], 'flags': sorted(flags), 'seq': seq, 'forms': forms,
@@ -228,6 +430,16 @@ def argv_of(seq):
     return e2.opts_to_argv([(c, list(a)) for c, a in seq])
 
 
+def gapped_argv(seq, rng):
+    """flags in shuffled order with increasing, possibly gapped positions 1..9"""
+    pos = sorted(rng.sample(range(1, 10), len(seq)))
+    items = []
+    for (c, a), p in zip(seq, pos):
+        items.append([e2.FLAGS[c], str(p)] + [str(v) for v in a])
+    rng.shuffle(items)
+    return [t for it in items for t in it]
+
+
 def replay_cex(cex):
     d = cex['data']
     form = cex['form']
@@ -236,17 +448,21 @@ def replay_cex(cex):
     if 'inst' not in d:
         return False, 'no concrete instance in counterexample'
     I = replay.inst_from_data(d['inst'])
+    Ifile = I
+    if 'twopl' not in flags and I.lprefs is not None:
+        I = spec.Inst(I.na, I.ns, I.np, I.nl, I.prefs, I.plec, None, I.plq, I.puq, I.llq, I.lt, I.luq)
     pcf, stab = 'pc' in flags, 'stab' in flags
     fs = spec.feasible_set(I, pcf, stab)
-    txt = spec.inst_to_text(I, trailer=False)
-    hdr = 'instance:\n%s\nargv: %s %s' % (txt, ' '.join('-' + f for f in sorted(flags)), ' '.join(argv_of(seq)))
+    txt = spec.inst_to_text(Ifile, trailer=False)
+    av = d.get('argv_seq') or argv_of(seq)
+    hdr = 'instance:\n%s\nargv: %s %s' % (txt, ' '.join('-' + f for f in sorted(flags)), ' '.join(av))
     if form == 'noexc':
-        out = replay.real_solve(I, flags, argv_of(seq))
+        out = replay.real_solve(Ifile, flags, av)
         if out['exc']:
             return True, hdr + '\nreal run raised ' + out['exc']
         return False, hdr + '\nreal run did not raise'
     if form == 'feas':
-        out = replay.real_solve(I, flags, argv_of(seq))
+        out = replay.real_solve(Ifile, flags, av)
         if not fs:
             return False, hdr + '\nspec says infeasible (encoding error)'
         if out['exc']:
@@ -258,7 +474,7 @@ def replay_cex(cex):
         return False, hdr + '\nreal run reports Optimal'
     if form in ('valid', 'stable', 'opt'):
         pin = {(s, p): v for s, p, v in d['x']}
-        out = replay.real_solve(I, flags, argv_of(seq), pin_x=pin)
+        out = replay.real_solve(Ifile, flags, av, pin_x=pin)
         if out['exc']:
             return False, hdr + '\nreal run raised ' + out['exc']
         pr = out['parsed']
@@ -281,7 +497,7 @@ def replay_cex(cex):
         return bad, hdr + note + '\nmeasure vector of printed matching %s, best over feasible matchings %s' % (mine, best)
     if form == 'complete':
         pin = {(s, p): v for s, p, v in d['xo']}
-        out = replay.real_solve(I, flags, [], pin_x=pin)
+        out = replay.real_solve(Ifile, flags, [], pin_x=pin)
         x_ok = spec.feasible(I, dict(pin), pcf, stab, P)
         if not x_ok:
             return False, hdr + '\nspec says x° infeasible (encoding error)'
@@ -335,3 +551,13 @@ def admissible(I, seq):
 
 def describe_task(t):
     return {'shape': t['shape'], 'flags': t['flags'], 'seq': t['seq'], 'forms': t['forms']}
+
+
+def task_cost(t):
+    sh = t['shape']
+    c = sum(len(g) for gs in sh['prefs'] for g in gs) + 1
+    if 'stab' in t['flags']:
+        c *= 3
+    if any(x[0] in ('lmb', 'lsb', 'mincostlsb') for x in t['seq']):
+        c *= 3
+    return c * (1 + len(t['seq']))
